@@ -6,8 +6,15 @@ import sys
 import time
 
 VERIF = os.path.dirname(os.path.dirname(os.path.dirname(os.path.abspath(__file__))))
-EVIDENCE = os.path.join(VERIF, "evidence")
-REPLAY = os.path.join(VERIF, "replay")
+if os.environ.get("VF_REPO"):      # scratch run against another checkout: keep /verif/evidence (which describes /repo) untouched
+    _alt = os.path.join(VERIF, ".cache", "alt", os.path.basename(os.environ["VF_REPO"].rstrip("/")))
+    EVIDENCE = os.path.join(_alt, "evidence")
+    REPLAY = os.path.join(_alt, "replay")
+    os.makedirs(EVIDENCE, exist_ok=True)
+    os.makedirs(REPLAY, exist_ok=True)
+else:
+    EVIDENCE = os.path.join(VERIF, "evidence")
+    REPLAY = os.path.join(VERIF, "replay")
 KNOWN = os.path.join(VERIF, "known_findings.json")
 
 
